@@ -260,6 +260,11 @@ class Check:
             if hits:
                 print(f"KNOWN-FINDING: property={self.pid} {rec['what']} ({len(hits)} cases, e.g. {hits[0]})")
         paths = []
+        if not self.replay_only:
+            # full list for triage (scratch, not evidence)
+            with open(os.path.join(self.wd, "violations.jsonl"), "w") as f:
+                for case_id, detail in self.violations:
+                    f.write(json.dumps({"case": case_id, "why": str(detail.get("why"))[:600]}) + "\n")
         if nviol and not self.replay_only:
             d = os.path.join(REPLAY, self.pid)
             os.makedirs(d, exist_ok=True)
